@@ -400,8 +400,7 @@ def tasks(tier, seed):
     for ns, ng, kinds, nin in shards:
         for sk, gk in F.t3_shards(ns, ng, kinds):
             t.append(('maps', ('t3', nin, sk, gk), 0, 1, tier, seed))
-    if tier == 'thorough':
-        t.append(('tlc',))
+    t.append(('tlc', tier))
     return t
 
 
@@ -412,7 +411,7 @@ def run_task(task):
         elif task[0] == 'maps': run_maps(res, task)
         elif task[0] == 'tlc':
             from checks import c08_tlc
-            c08_tlc.run(res)
+            c08_tlc.run(res, c08_tlc.CONFIGS if task[1] == 'thorough' else [('{1, 2}', 4, 7)])
     except Exception as ex:
         res.violation(f'C08/{task[0]}/exception-{type(ex).__name__}', {'kind': 'task', 'task': repr(task)}, traceback.format_exc()[-1500:])
     return res
